@@ -758,6 +758,29 @@ func (e *enc) specCall(env *specEnv, n *SCall) (tval, error) {
 			return tval{}, fmt.Errorf("NVisited() is only available in invariants of a loop that ranges over a map")
 		}
 		return tval{fmt.Sprintf("(Card_%s %s)", env.visitedSort, env.visited), intTy, "Int"}, nil
+	case "File":
+		// File(path): the current content of the file in the ghost file system
+		as, err := args()
+		if err != nil || len(as) != 1 || as[0].sort != "String" {
+			return tval{}, fmt.Errorf("File(path string)")
+		}
+		k := e.fsMem()
+		return tval{fmt.Sprintf("(select %s %s)", e.memGet(env.mem, k), as[0].t), strTy, "String"}, nil
+	case "Split", "Join":
+		as, err := args()
+		if err != nil || len(as) != 2 {
+			return tval{}, fmt.Errorf("%s takes two arguments", n.Fun)
+		}
+		ss := e.needStrSlice()
+		if n.Fun == "Split" {
+			r := fmt.Sprintf("(SplitF %s %s)", as[0].t, as[1].t)
+			if !boundNameRe.MatchString(r) {
+				e.once("splitfacts#"+r, func() { e.splitFacts(as[0].t, as[1].t, r) })
+			}
+			return tval{r, strSliceTy, ss}, nil
+		}
+		e.joinAxioms()
+		return tval{fmt.Sprintf("(JoinF %s %s)", as[0].t, as[1].t), strTy, "String"}, nil
 	case "IsKind":
 		// IsKind(n, "XContext"): the node is a rule context of that generated type ("TerminalNodeImpl" for a token)
 		if len(n.Args) != 2 {
